@@ -237,6 +237,15 @@ def run_C01(ctx):
     for ft in SYNTAX_FAULTS:
         fl += [ft, "zz = " + ft if "=" not in ft else ft, "ee(q) = %s\nee(1)\nee" % ft if "=" not in ft and "\n" not in ft else ft, "sqrt(%s)" % ft, ft + "\n" + ft]
     do_stream(ctx, "malformed", props.expr_cases("m", fl, prelude=None), P)
+    names = []
+    for n in list(range(1, 70)) + [127, 128, 129, 255, 256, 1000]:
+        for stem in ("a", "ab", "abc", "", "é", "x_"):
+            for ch in ("π", "é", "ϕ", "°", "𝑥" if False else "ü"):
+                names.append(stem + ch * n)
+    nm = []
+    for w in names:
+        nm += [w, w + " = 1", w + "(1)", "delete " + w, w + "(q) = q", "1 + " + w, "[%s]" % w, w + " as km", "5 " + w]
+    do_stream(ctx, "long-names", props.expr_cases("l", nm, prelude=None), P)
     big = []
     for n in (2, 16, 17, 24, 25, 40, 255, 256, 257, 1000):
         ones = ",".join(["1"] * n)
@@ -472,7 +481,7 @@ def hist_streams(ctx, P, monitors, oracle=None):
 def run_C09(ctx):
     # C09 is about the built-ins: outcomes and the digest of the constant entries (user bindings are C12 / C13's business)
     P = props.proj_values(consts_only=True)
-    hist_streams(ctx, P, {"builtins_changed"}, oracle=oracles.oracle_clear)
+    hist_streams(ctx, P, {"builtins_changed"}, oracle=[oracles.oracle_clear, oracles.oracle_guarded])
     # every name of the initial table (as the property documents it: spec side, not the dump) x the four guarded
     # statement kinds, directly and through a copy, then the name itself is probed
     names = [l.strip() for l in open(os.path.join(core.VERIF, "spec", "builtin_names.txt"), encoding="utf-8") if l.strip()]
@@ -485,7 +494,7 @@ def run_C09(ctx):
         cases.append(gen.hist_case("b%d" % k, texts))
     cases.append(gen.hist_case("fd0", ["rate = 7\nhalf(q) = q / 2\n", "rate\nhalf(4)\nrate = 8\nhalf(q, r) = q\ndelete half(q)\n", "clear\nrate\nhalf\npi\nrate = 1\nrate\n"]))
     cases.append(gen.hist_case("fd1", ["rate = 7\nhalf(q) = q / 2\n", "delete rate\ndelete half\nrate\nhalf\n"]))
-    do_stream(ctx, "every-builtin", cases, P, monitors={"builtins_changed"}, oracle=oracles.oracle_clear,
+    do_stream(ctx, "every-builtin", cases, P, monitors={"builtins_changed"}, oracle=[oracles.oracle_clear, oracles.oracle_guarded],
               exhaustive="every documented built-in name x {assign, define, define literal, delete, delete signature, via copy, shadowing parameter of a failing and of a succeeding call, clear}")
 
 
@@ -494,7 +503,7 @@ def run_C10(ctx):
     # atomicity is judged on the implementation by the monitor (deep snapshot around every failing statement);
     # the model comparison is on outcomes and on the built-ins
     P = props.proj_values(consts_only=True)
-    hist_streams(ctx, P, {"failed_stmt_mutated"})
+    hist_streams(ctx, P, {"failed_stmt_mutated"}, oracle=oracles.oracle_guarded)
     # texts with one lexical / syntax fault at every position: nothing runs
     cases = []
     n = 0
@@ -538,8 +547,8 @@ def run_C11(ctx):
     texts = ["x\ny\nf\ngg\nh\nk\nsin\npi\ne\nkk\nhalf\nww\nr\napply\ndup\nhh\nPI\nTau\nPI = 1\nTau = 1\ndelete Sin\n"]
     ex += []
     do_stream(ctx, "eval-in-env", (gen.hist_case("v%d" % k, [prelude, e + "\n"] + texts) for k, e in enumerate(ex)), P,
-              monitors={"eval_mutated", "eval_not_repeatable"}, setup=1)
-    hist_streams(ctx, P, {"eval_mutated", "eval_not_repeatable"})
+              monitors={"eval_mutated", "eval_not_repeatable", "frame_violated"}, setup=1)
+    hist_streams(ctx, P, {"eval_mutated", "eval_not_repeatable", "frame_violated"})
 
 
 def run_C12(ctx):
